@@ -9,6 +9,8 @@ void vp_sock_feed(int fd, const void* data, int n);    /* bytes the peer sends (
 void vp_sock_peer_close(int fd);                       /* the peer closes after the bytes fed so far */
 int  vp_sock_sent(int fd, void* out, int cap);         /* copies what the code under test has written; returns the count */
 void vp_sock_fragment(int fd, int on);                 /* the next `on` read() calls return a symbolic number of bytes in 1..available */
+void vp_sock_set_server(void (*fn)(int server_fd));       /* connect()ed sockets talk to fn, run when the client blocks */
+int  vp_sock_peer_of(int fd);
 #ifdef __cplusplus
 }
 #endif
